@@ -16,7 +16,8 @@ Definition gk_eqb (a b : gk) : bool :=
   match a, b with
   | GkSubH, GkSubH | GkBrokerSub, GkBrokerSub | GkPresAdd, GkPresAdd | GkPresRem, GkPresRem
   | GkJoin, GkJoin | GkLeave, GkLeave | GkUnsubH, GkUnsubH | GkTransport, GkTransport
-  | GkDiscH, GkDiscH | GkAliveH, GkAliveH | GkConnH, GkConnH | GkBrokerUnsub, GkBrokerUnsub => true
+  | GkDiscH, GkDiscH | GkAliveH, GkAliveH | GkConnH, GkConnH | GkBrokerUnsub, GkBrokerUnsub
+  | GkConnecting, GkConnecting => true
   | _, _ => false
   end.
 
